@@ -26,7 +26,7 @@ ToolModel ==
      grep    |-> [p |-> TRUE, b |-> FALSE, L |-> FALSE, e |-> FALSE]]   \* lines `grep -F -e <hit>` keeps
 ASSUME PrintT(<<"ACC", ToJson(ToolModel)>>)
 
-(* the refutation configurations: the unguarded statements *)
+(* the refutation configurations (specs/CommandExecMC_refute_*.cfg): the unguarded statements *)
 F_RcPolicy          == RcPolicy
 F_TimeoutTerminates == TimeoutTerminates
 F_NoneRunning       == NoneRunningAtReturn
@@ -37,4 +37,20 @@ F_Stdin             == NeverReadsCallerStdin
 F_StreamEqualsCall  == StreamEqualsCall
 F_Env               == EnvIsControlled
 F_NotFoundLeft      == NoneRunningAtReturn
+
+(* All refutations in one run (CONSTRAINT Witness, POSTCONDITION PostWitness, -workers 1): with every class  *)
+(* admitted, each reachable state that breaks a statement is recorded with the classes of its case; the       *)
+(* harness requires, for every class, a witness whose case belongs to that class only.                        *)
+Broken ==
+    (IF ~RcPolicy THEN {"RcPolicy"} ELSE {}) \cup (IF ~TimeoutTerminates THEN {"TimeoutTerminates"} ELSE {}) \cup
+    (IF ~NoneRunningAtReturn THEN {"NoneRunningAtReturn"} ELSE {}) \cup (IF ~NothingStuck THEN {"NothingStuck"} ELSE {}) \cup
+    (IF ~Terminates THEN {"Terminates"} ELSE {}) \cup (IF ~AllReaped THEN {"AllReaped"} ELSE {}) \cup
+    (IF ~NeverReadsCallerStdin THEN {"NeverReadsCallerStdin"} ELSE {}) \cup
+    (IF ~StreamEqualsCall THEN {"StreamEqualsCall"} ELSE {}) \cup (IF ~EnvIsControlled THEN {"EnvIsControlled"} ELSE {}) \cup
+    (IF ~ResultIsLastStageOutput THEN {"ResultIsLastStageOutput"} ELSE {}) \cup
+    (IF ~ExceptionCarriesOutput THEN {"ExceptionCarriesOutput"} ELSE {}) \cup (IF ~NotFoundIsAnError THEN {"NotFoundIsAnError"} ELSE {}) \cup
+    (IF ~NoShell THEN {"NoShell"} ELSE {})
+Witness == Broken = {} \/ TLCSet(11, TLCGet(11) \cup {[inv |-> n, classes |-> Classes(c), api |-> c.api] : n \in Broken})
+ASSUME TLCSet(11, {})
+PostWitness == PrintT(<<"ACC", ToJson([witnesses |-> TLCGet(11)])>>)
 =============================================================================
